@@ -4,7 +4,7 @@
    scope_internal.go produces; the sequence is linked to [run_ops] by [ns_of_table_after]. *)
 From Coq Require Import List Arith Bool ZArith NArith Lia.
 From Coq.Strings Require Import Byte.
-From Verif Require Import Base.Bytes Gen.Namespace Gen.NamespaceFacts Idl.Ast Idl.AstUtil Gen.Scope.
+From Verif Require Import Base.Bytes Gen.Namespace Gen.NamespaceFacts Gen.NamespaceTotal Idl.Ast Idl.AstUtil Gen.Scope.
 Import ListNotations.
 
 (* ------------------------------------------------------------------ run_ops over appended sequences *)
@@ -240,6 +240,67 @@ Proof.
   intros [= <-]. rewrite rev_involutive. eapply pres_install_names; [|exact E]. exact I.
 Qed.
 End WithStyle.
+
+(* ------------------------------------------------------------------ the only error is a reserve failure *)
+Definition nofuel {A} (m : M A) : Prop := forall tr, m tr <> SErr EFuel.
+
+Lemma nofuel_ret {A} (a : A) : nofuel (ret a).
+Proof. intros tr. discriminate. Qed.
+Lemma nofuel_bind {A B} (m : M A) (f : A -> M B) : nofuel m -> (forall a, nofuel (f a)) -> nofuel (bind m f).
+Proof.
+  intros Hm Hf tr. unfold bind. destruct (m tr) as [[a tr1]|e] eqn:E; [apply Hf|].
+  intros [= ->]. exact (Hm tr E).
+Qed.
+Lemma nofuel_seq {A} (m : M unit) (k : M A) : nofuel m -> nofuel k -> nofuel (seq m k).
+Proof. intros Hm Hk. apply nofuel_bind; [exact Hm | intros _; exact Hk]. Qed.
+Lemma nofuel_when b m : nofuel m -> nofuel (when b m).
+Proof. destruct b; cbn [when]; [auto | intros _; apply nofuel_ret]. Qed.
+Lemma nofuel_for_idx {A} (f : nat -> A -> M unit) : (forall i x, nofuel (f i x)) -> forall l i, nofuel (for_idx f i l).
+Proof.
+  intros Hf. induction l as [|x l IH]; intros i; cbn [for_idx]; [apply nofuel_ret | apply nofuel_seq; [apply Hf | apply IH]].
+Qed.
+Lemma nofuel_for_each {A} (f : A -> M unit) l : (forall x, nofuel (f x)) -> nofuel (for_each f l).
+Proof. intros Hf. unfold for_each. apply nofuel_for_idx. intros _ x. apply Hf. Qed.
+Lemma nofuel_add t ow k name id : nofuel (m_add t ow k name id).
+Proof.
+  intros tr. unfold m_add. pose proof (add_underscore_total (ns_of t tr) name id) as H.
+  destruct (add underscore_suffix (ns_of t tr) name id) as [[s' r]|]; [discriminate | contradiction].
+Qed.
+Lemma nofuel_add_ t k name id : nofuel (m_add_ t k name id).
+Proof. unfold m_add_. apply nofuel_bind; [apply nofuel_add | intros _; apply nofuel_ret]. Qed.
+Lemma nofuel_reserve t ow k name id : nofuel (m_reserve t ow k name id).
+Proof. intros tr. unfold m_reserve. destruct (snd (reserve (ns_of t tr) name id)); discriminate. Qed.
+
+Section NoFuel.
+Variable identify : bytes -> bytes.
+Variable lower_first : bytes -> bytes.
+
+Ltac nf := repeat first
+  [ apply nofuel_ret | apply nofuel_add | apply nofuel_add_ | apply nofuel_reserve
+  | apply nofuel_when | apply nofuel_seq | apply nofuel_for_each; intros ? | apply nofuel_for_idx; intros ? ?
+  | apply nofuel_bind; [|intros ?] ].
+
+Lemma nofuel_build_struct_like ft t vname cat fields nn :
+  nofuel (build_struct_like identify ft t vname cat fields nn).
+Proof. unfold build_struct_like. nf. Qed.
+
+Lemma nofuel_build_function ft t v : nofuel (build_function identify lower_first ft t v).
+Proof. unfold build_function. nf. Qed.
+
+Lemma nofuel_install_names ft f : nofuel (install_names identify lower_first ft f).
+Proof.
+  unfold install_names, build_service, build_enum, build_typedef, build_constant.
+  nf; try apply nofuel_build_struct_like; try apply nofuel_build_function.
+Qed.
+
+(* the model rejects a file for one reason only: a MustReserve found its name occupied *)
+Theorem scope_error_is_reserve_failure ft f e :
+  scope_run identify lower_first ft f = SErr e -> e = EReserve.
+Proof.
+  unfold scope_run. destruct (install_names identify lower_first ft f []) as [[u tr]|e'] eqn:E; [discriminate|].
+  intros [= <-]. destruct e'; [reflexivity|]. exfalso. exact (nofuel_install_names ft f [] E).
+Qed.
+End NoFuel.
 
 (* ------------------------------------------------------------------ consequences for well-formed traces *)
 (* right after an operation its name is owned by its id *)
